@@ -52,6 +52,13 @@ def native_ns(extra: dict[str, Any] | None = None) -> dict[str, Any]:
 	ns.update(REG.consts)
 	for name, sp in REG.specs.items():
 		ns[name] = sp.fn
+		g = getattr(sp.fn, '__globals__', None)
+		if g is not None:
+			# spec functions run natively inside their own module: give them the native readings of externals and helpers
+			for k, f in REG.replays.items():
+				g.setdefault(k, f)
+			for k, f in (('implies', implies), ('init', init), ('last', last), ('fzero', fzero)):
+				g.setdefault(k, f)
 	for name, lm in REG.lemmas.items():
 		ns[name] = lambda *a, **k: True
 	for name, fn in REG.replays.items():
@@ -117,6 +124,13 @@ def check_native(c: Contract, inputs: dict[str, Any], call: Callable[..., Any] |
 	if src.kind in ('method', 'classmethod', 'property') and call is None and adapter is None:
 		argnames = argnames[1:]
 	args = {k: v for k, v in inputs.items() if k in argnames or k in [a.arg for a in src.node.args.kwonlyargs]}
+	if adapter is not None and call is None:
+		import inspect
+		sig = inspect.signature(adapter)
+		if any(p.kind == p.VAR_KEYWORD for p in sig.parameters.values()):
+			args = dict(inputs)
+		else:
+			args = {k: v for k, v in inputs.items() if k in sig.parameters}
 	exact = {e: cond for e, cond in c.raises.items() if cond is not None}
 	try:
 		result = fn(**args)
